@@ -68,6 +68,10 @@ TNext == /\ l <= Len(Traces[tid])
 TSpec == TInit /\ [][TNext]_<<hvars, tid, l>>
 Mark == (l = Len(Traces[tid]) + 1) => TLCSet(1, TLCGet(1) \cup {tid})
 Prog == TLCSet(2, [TLCGet(2) EXCEPT ![tid] = IF @ < l - 1 THEN l - 1 ELSE @])
+\* domain stage: which pairs of definitions (positions in the base order) must keep their relative order, per recorded force field
+DInit == HInit /\ tid = 0 /\ l = 0
+DNext == FALSE /\ UNCHANGED <<hvars, tid, l>>
+ExportKeep == PrintT(<<"KEEP", ToJson([i \in DOMAIN TFFs |-> SetToSeq(MustKeep(TFFs[i]))])>>)
 Accepted == LET rej == (1..Len(Traces)) \ TLCGet(1)
                 bad == BadRecs \cup BadOpaque
             IN IF rej = {} /\ bad = {} THEN PrintT(<<"ACCEPTED", ToJson([traces |-> Len(Traces), recs |-> Len(Doc.recs), opaque |-> Len(Doc.opaque)])>>)
